@@ -75,6 +75,12 @@ def run(eng, ctx):
                        "no other reader method branches on the option fields")
     sa = eng.symeval(asm.qualname)
     optf = {f for f in (vf, pf) if f}
+    # fields the constructor derives from the two options (a precomputed set, a flag ...) are option fields too
+    rinit_se = eng.symeval(f"{eng.reader_cls}.__init__")
+    isoptp = lambda s_: s_ in (("param", "validate"), ("param", "parsed"))  # noqa: E731
+    for e_ in rinit_se.effects:
+        if e_.kind == "store" and e_.target and e_.target[0] == "self" and (mentions(e_.term, isoptp) or any(mentions(c_, isoptp) for c_, _ in e_.guards)):
+            optf.add(e_.target[1])
     isopt = lambda s: s[0] == "field" and s[1] in optf  # noqa: E731
     nd2 = 0
     for e in sa.effects:
